@@ -319,6 +319,7 @@ class Run:
         self.epoch = 0           # number of re-opens so far
         self.first_epoch = {}    # bytes -> epoch of first addition
         self.nt = False
+        self.maybe = set()       # bytes handed to a rejected call: may be stored, need not be
         self.pool = []
         for p in case["pool"]:
             if "start" in p:
@@ -436,6 +437,33 @@ class Run:
             if ext not in IMG.EXTS[info.fmt] or ct != IMG.CTYPES[info.fmt]:
                 self.fail(Violation("C15:type:image-object:%s" % info.fmt,
                                     "%s: image.ext=%r content_type=%r for a %s" % (where, ext, ct, info.fmt)))
+
+    BAD_ARGS = {"left-none": (None, 0, None, None), "top-none": (0, None, None, None),
+                "width-str": (0, 0, "a", None), "height-object": (0, 0, None, object)}
+
+    def op_badpic(self, img_i, slide_i, how, which):
+        """an add_picture() call the library rejects (caught by the caller, who carries on): whatever it leaves
+        behind, the pictures already there still show their image; the rejected image may or may not be stored"""
+        info = self.pool[img_i % len(self.pool)]
+        si, slide = self.slide(slide_i)
+        arg, closer, _mis = self.give(info, how, 0)
+        left, top, w, h = self.BAD_ARGS[which]
+        if h is object:
+            h = object()
+        try:
+            try:
+                slide.shapes.add_picture(arg, left, top, w, h)
+            except (TypeError, ValueError):
+                pass
+            else:
+                raise HarnessError("add_picture accepted %s" % which)
+        finally:
+            closer()
+        self.maybe.add(info.blob)
+        self.classes += ["op=badpic", "bad=" + which]
+        if any(r["blob"] == info.blob and r["slide"] == si for r in self.shapes):
+            self.nt = True
+            self.classes.append("rejected-add-of-image-shown-on-that-slide")
 
     def _pic_layouts(self):
         from pptx.enum.shapes import PP_PLACEHOLDER
@@ -636,7 +664,12 @@ class Run:
                     self.fail(Violation("C15:stored-once:start-image-stored-again",
                                         "%s: an image of the start deck was added again and is now stored as %r"
                                         % (what, names)))
-        known = set(exp_new) | set(self.start_media.values())
+        known = set(exp_new) | set(self.start_media.values()) | self.maybe
+        for b in self.maybe:
+            if len(by_bytes.get(b, [])) > 1 and b not in self.start_media.values():
+                self.fail(Violation("C15:stored-once:same-bytes-stored-twice",
+                                    "%s: an image handed to a rejected add_picture() is stored %d times: %r"
+                                    % (what, len(by_bytes[b]), by_bytes[b])))
         if movie_bytes is not None:
             known.add(movie_bytes)
         for n in sorted(media):
@@ -739,6 +772,8 @@ class Run:
                 self.classes.append("op=slide")
             elif k == "pic":
                 self.op_pic(*op[1:])
+            elif k == "badpic":
+                self.op_badpic(*op[1:])
             elif k == "ph":
                 self.op_ph(*op[1:])
             elif k == "movie":
@@ -860,6 +895,8 @@ def strategies():
         st.tuples(st.just("pic"), img_i, slide_i, how, namev, st.sampled_from(["none", "none", "w", "h", "both"]), emu, emu),
         st.tuples(st.just("pic"), img_i, slide_i, how, namev, st.sampled_from(["none", "w", "h"]), emu, emu),
         st.tuples(st.just("ph"), img_i, slide_i, how, namev),
+        st.tuples(st.just("badpic"), img_i, slide_i, how,
+                  st.sampled_from(["left-none", "top-none", "width-str", "height-object"])),
         st.tuples(st.just("movie"), st.one_of(img_i, img_i, img_i, st.none()), slide_i, how, namev),
         st.tuples(st.just("ole"), st.one_of(img_i, img_i, img_i, st.none()), slide_i, how, namev),
         st.tuples(st.just("slide"), st.sampled_from([6, 8, 8, 1, 0, 5, 3])),
